@@ -1086,6 +1086,9 @@ func (cfg *Config) glob(base, pat string) ([]string, error) {
 			}
 			continue
 		case !pattern.HasMeta(part, 0):
+			// The path element is a literal; undo the quoting of any
+			// pattern metacharacters, as we look it up by name.
+			part = unquoteMeta(part)
 			var newMatches []string
 			for _, dir := range matches {
 				match := dir
@@ -1180,6 +1183,22 @@ func (cfg *Config) glob(base, pat string) ([]string, error) {
 		matches = matches[1:]
 	}
 	return matches, nil
+}
+
+// unquoteMeta removes the backslash escapes from a pattern without any
+// unescaped metacharacters, undoing [pattern.QuoteMeta].
+func unquoteMeta(pat string) string {
+	if !strings.Contains(pat, "\\") {
+		return pat
+	}
+	var sb strings.Builder
+	for i := 0; i < len(pat); i++ {
+		if pat[i] == '\\' && i+1 < len(pat) {
+			i++
+		}
+		sb.WriteByte(pat[i])
+	}
+	return sb.String()
 }
 
 func (cfg *Config) globDir(base, dir string, matcher func(string) bool, wantDir bool, matches []string) ([]string, error) {
